@@ -14,6 +14,9 @@ package main
 //                                                                   -> one c19.check result per call, all calls on ONE Server value
 //                                                                      (concurrent: all calls at once from goroutines, twice);
 //                                                                      the model evaluates every call alone
+//   c19.genpayload (secret ltpayload other)                         -> real GeneratePayload: (wellformed, tag = HMAC under the FULL
+//                                                                      secret computed here, accepted by a second server with the
+//                                                                      same secret, accepted by a server with secret `other`)
 //   c19.clock      (ltproof ltpayload dproof dpayload usegen)       -> CheckProof of an honest proof built at the
 //                                                                      real clock with timestamps now+d
 // The columns hmac, b64, boc, lib, ext, verify are oracle data for the model (computed here with
@@ -55,6 +58,7 @@ func init() {
 	execs["c19.check"] = execC19Check
 	execs["c19.clock"] = execC19Clock
 	execs["c19.hist"] = execC19Hist
+	execs["c19.genpayload"] = execC19GenPayload
 	gens["C19"] = genC19
 	gens["C19corpus"] = genC19Corpus
 }
@@ -118,6 +122,32 @@ func c19Hmac(secret string, msg []byte) []byte {
 	h := hmac.New(sha256.New, []byte(secret))
 	h.Write(msg)
 	return h.Sum(nil)
+}
+
+// c19Secret: the server secret is part of the quantifier: lengths around the HMAC block size
+// (64 bytes for SHA-256: longer keys are hashed first, shorter ones zero-padded) and long ones
+var c19SecretLens = []int{0, 1, 31, 32, 63, 64, 65, 100, 1000}
+
+func c19Secret(r *prng.R) string {
+	if r.Chance(30) {
+		return string(r.Bytes(1 + r.Intn(20)))
+	}
+	return string(r.Bytes(c19SecretLens[r.Intn(len(c19SecretLens))]))
+}
+
+// c19Sibling returns a different secret that agrees with s on its first min(64, len-1) bytes
+// (and has the same length when possible), and the truncation of s to 64 bytes
+func c19Sibling(r *prng.R, s string) string {
+	b := []byte(s)
+	if len(b) == 0 {
+		return "\x01"
+	}
+	i := len(b) - 1
+	if len(b) > 64 && r.Bool() {
+		i = 64 + r.Intn(len(b)-64)
+	}
+	b[i] ^= byte(1 + r.Intn(255))
+	return string(b)
 }
 
 // c19MakePayload builds a payload the way GeneratePayload does, with a chosen time field.
@@ -213,6 +243,35 @@ func c19B64Oracle(s string) sx.V {
 	return sx.Bytes(b)
 }
 
+// c19SameKey: HMAC (RFC 2104) zero-pads keys up to the block size and hashes longer ones, so a key
+// of at most 64 bytes and the same key followed by zero bytes (up to 64) are one and the same key
+func c19SameKey(a, b string) bool {
+	eff := func(s string) [64]byte {
+		var k [64]byte
+		if len(s) > 64 {
+			h := sha256.Sum256([]byte(s))
+			copy(k[:], h[:])
+		} else {
+			copy(k[:], s)
+		}
+		return k
+	}
+	return eff(a) == eff(b)
+}
+
+func c19SecretClass(s string) string {
+	switch {
+	case len(s) == 0:
+		return "secret0"
+	case len(s) < 64:
+		return "secret<64"
+	case len(s) == 64:
+		return "secret64"
+	default:
+		return "secret>64"
+	}
+}
+
 func c19HmacOracle(secret, payload string) sx.V {
 	b, err := hex.DecodeString(payload)
 	if err != nil || len(b) < 16 {
@@ -223,6 +282,29 @@ func c19HmacOracle(secret, payload string) sx.V {
 
 // c19CheckCase assembles a c19.check input including all oracle columns.
 func c19CheckCase(secret string, ltp, ltpl int64, domain string, ex sx.V, tp *tonconnect.Proof, extraKeys ...[]byte) sx.V {
+	return c19CheckCasePolicy(secret, ltp, ltpl, sx.Str(domain), ex, tp, extraKeys...)
+}
+
+// c19DomainFunc: the checkDomain argument of CheckProof: a byte string d means StaticDomain(d);
+// ('allow) ('deny) ('error) ('suffix x) are caller-written policies
+func c19DomainFunc(v sx.V) func(string) (bool, error) {
+	if v.K == sx.KBytes {
+		return tonconnect.StaticDomain(string(v.Bytes))
+	}
+	switch v.List[0].Atom {
+	case "allow":
+		return func(string) (bool, error) { return true, nil }
+	case "deny":
+		return func(string) (bool, error) { return false, nil }
+	case "error":
+		return func(string) (bool, error) { return true, fmt.Errorf("domain registry unavailable") }
+	default:
+		suf := string(v.List[1].Bytes)
+		return func(s string) (bool, error) { return strings.HasSuffix(s, suf), nil }
+	}
+}
+
+func c19CheckCasePolicy(secret string, ltp, ltpl int64, domain sx.V, ex sx.V, tp *tonconnect.Proof, extraKeys ...[]byte) sx.V {
 	bo, lib, ext := sx.V(sx.A("err")), sx.B(false), sx.B(false)
 	if tp.Proof.StateInit != "" {
 		bo, lib, ext = c19BocOracle(tp.Proof.StateInit)
@@ -250,7 +332,7 @@ func c19CheckCase(secret string, ltp, ltpl int64, domain string, ex sx.V, tp *to
 			vt = append(vt, sx.L(sx.Bytes(k), sx.Bytes(msg), sx.B(ed25519.Verify(k, msg, p.Signature))))
 		}
 	}
-	return sx.L(sx.Str(secret), sx.Z(ltp), sx.Z(ltpl), sx.Str(domain), ex, c19ProofSx(tp), sx.Z(c19Now*1e9+500000000),
+	return sx.L(sx.Str(secret), sx.Z(ltp), sx.Z(ltpl), domain, ex, c19ProofSx(tp), sx.Z(c19Now*1e9+500000000),
 		c19HmacOracle(secret, tp.Proof.Payload), c19B64Oracle(tp.Proof.Signature), bo, lib, ext, sx.L(vt...))
 }
 
@@ -318,7 +400,7 @@ func execC19Check(in sx.V) sx.V {
 	secret := string(l[0].Bytes)
 	srv := c19Server(c19ExecFromSx(l[4]), secret, l[1].Int.Int64(), l[2].Int.Int64())
 	tp := c19ProofFromSx(l[5])
-	ok, key, err := srv.CheckProof(context.Background(), tp, srv.CheckPayload, tonconnect.StaticDomain(string(l[3].Bytes)))
+	ok, key, err := srv.CheckProof(context.Background(), tp, srv.CheckPayload, c19DomainFunc(l[3]))
 	if err != nil || !ok {
 		if ok || key != nil {
 			return sx.L(sx.A("inconsistent-result"))
@@ -326,6 +408,26 @@ func execC19Check(in sx.V) sx.V {
 		return sx.A("err")
 	}
 	return sx.L(sx.B(true), sx.Bytes(key))
+}
+
+// c19.genpayload (secret ltpayload other): the real GeneratePayload of a server with `secret`;
+// -> (wellformed tag-is-HMAC-under-the-full-secret accepted-by-an-independent-server-with-the-same-secret
+//     accepted-by-a-server-with-`other`)
+func execC19GenPayload(in sx.V) sx.V {
+	l := in.List
+	secret, lt, other := string(l[0].Bytes), l[1].Int.Int64(), string(l[2].Bytes)
+	a := c19Server(c19Exec{}, secret, 0, lt)
+	p, err := a.GeneratePayload()
+	if err != nil {
+		return sx.A("err")
+	}
+	b, err := hex.DecodeString(p)
+	wf := err == nil && len(b) == 32 && p == strings.ToLower(p)
+	tag := wf && hmac.Equal(b[16:], c19Hmac(secret, b[:16])[:16])
+	self, _ := c19Server(c19Exec{}, secret, 0, lt).CheckPayload(p)
+	own, _ := a.CheckPayload(p)
+	foreign, _ := c19Server(c19Exec{}, other, 0, lt).CheckPayload(p)
+	return sx.L(sx.B(wf), sx.B(tag), sx.B(self && own), sx.B(foreign))
 }
 
 var c19ClockKey = ed25519.NewKeyFromSeed(sha256Sum("c19 clock key"))
@@ -699,7 +801,7 @@ type c19Honest struct {
 func c19MakeHonest(r *prng.R, ver wallet.Version, viaSI bool) c19Honest {
 	wcs := []int{0, 0, 0, -1, 1, 127, -128}
 	w := c19NewWallet(r, ver, wcs[r.Intn(len(wcs))])
-	secret := string(r.Bytes(1 + r.Intn(20)))
+	secret := c19Secret(r)
 	domain := c19Domain(r)
 	payload := c19MakePayload(secret, r.Bytes(8), c19Far+int64(r.Intn(1000)))
 	ts := c19Far + int64(r.Intn(100000))
@@ -809,6 +911,14 @@ func genC19(c *Ctx) {
 		tp = h.clone()
 		tp.Proof.Payload = c19MakePayload(h.secret+"x", r.Bytes(8), c19Far)
 		em("payload-foreign", tp, h.domain, h.ex)
+		tp = h.clone()
+		tp.Proof.Payload = c19MakePayload(c19Sibling(r, h.secret), r.Bytes(8), c19Far)
+		em("payload-sibling-secret", tp, h.domain, h.ex)
+		if len(h.secret) > 64 {
+			tp = h.clone()
+			tp.Proof.Payload = c19MakePayload(h.secret[:64], r.Bytes(8), c19Far)
+			em("payload-truncated-secret", tp, h.domain, h.ex)
+		}
 		// signature: bit flips, truncation, extension, another key's signature
 		sig, _ := base64.StdEncoding.DecodeString(h.tp.Proof.Signature)
 		for j := 0; j < c.Scale(4, 16); j++ {
@@ -1001,7 +1111,60 @@ func genC19(c *Ctx) {
 		}
 	}
 	genC19Hist(c)
+	genC19Config(c)
 	genC19Clock(c)
+}
+
+// server configuration as part of the quantifier: secrets of every length class with siblings that
+// share the first 64 bytes / truncations / zero-paddings, through the real GeneratePayload;
+// caller-written domain policies; both lifetimes set together
+func genC19Config(c *Ctx) {
+	r := c.R
+	for rep := 0; rep < c.Scale(1, 4); rep++ {
+		for _, n := range c19SecretLens {
+			secret := string(r.Bytes(n))
+			others := []struct{ name, s string }{{"same", secret}, {"sibling", c19Sibling(r, secret)}, {"appended", secret + "x"},
+				{"zeropadded", secret + "\x00"}, {"random", string(r.Bytes(n + 1))}}
+			if n > 64 {
+				others = append(others, struct{ name, s string }{"trunc64", secret[:64]}, struct{ name, s string }{"prefix64+other", secret[:64] + string(r.Bytes(n-64))})
+			}
+			if n > 0 {
+				others = append(others, struct{ name, s string }{"shorter", secret[:n-1]})
+			}
+			for _, o := range others {
+				lt := []int64{0, 300, 3600, 9223372036}[r.Intn(4)] // larger values overflow time.Duration
+				in := sx.L(sx.Str(secret), sx.Z(lt), sx.Str(o.s))
+				out := c.Emit("c19.genpayload", in, "genpayload|"+o.name+"|long="+fmt.Sprint(len(secret) > 64))
+				want := sx.L(sx.B(true), sx.B(true), sx.B(true), sx.B(c19SameKey(o.s, secret))).String()
+				if out.String() != want {
+					c.Fail("c19.genpayload", in, "genpayload", "GeneratePayload/CheckPayload do not use the full secret: got "+out.String()+" want "+want+" ("+o.name+")")
+				}
+			}
+		}
+	}
+	// domain policies and option combinations on honest proofs
+	for rep := 0; rep < c.Scale(2, 8); rep++ {
+		h := c19MakeHonest(r, c19Versions[r.Intn(len(c19Versions))], r.Bool())
+		suf := h.domain
+		if len(suf) > 3 {
+			suf = suf[len(suf)-3:]
+		}
+		pols := []struct {
+			name string
+			p    sx.V
+			acc  bool
+		}{
+			{"allow", sx.L(sx.A("allow")), true}, {"deny", sx.L(sx.A("deny")), false}, {"error", sx.L(sx.A("error")), false},
+			{"suffix-ok", sx.L(sx.A("suffix"), sx.Str(suf)), true}, {"suffix-no", sx.L(sx.A("suffix"), sx.Str(suf+"~")), false},
+		}
+		for _, p := range pols {
+			in := c19CheckCasePolicy(h.secret, 0, 0, p.p, h.ex, h.tp, h.w.pub)
+			c19Emit(c, "policy|"+p.name, in, p.acc, h.w.pub, "")
+		}
+		for _, lt := range [][2]int64{{1, 1}, {300, 1 << 40}, {1 << 40, 300}, {-1, 300}, {300, -1}, {1<<63 - 1, 1<<63 - 1}} {
+			c.Emit("c19.check", c19CheckCase(h.secret, lt[0], lt[1], h.domain, h.ex, h.tp, h.w.pub), "options|both-lifetimes")
+		}
+	}
 }
 
 func c19SameAddressBytes(a, b string) bool {
@@ -1124,7 +1287,13 @@ func c19PayloadZoo(r *prng.R, secret string) []c19Payload {
 		m[i] ^= byte(1 << r.Intn(8))
 		return hex.EncodeToString(m)
 	}
+	trunc := secret
+	if len(trunc) > 64 {
+		trunc = trunc[:64]
+	}
+	sib := c19Sibling(r, secret)
 	z := []c19Payload{
+		{"trunc64", c19MakePayload(trunc, r.Bytes(8), c19Far), len(secret) <= 64},
 		{"good", good, true},
 		{"upper", strings.ToUpper(good), true},
 		{"future62", c19MakePayload(secret, r.Bytes(8), 1<<62), true},
@@ -1137,7 +1306,9 @@ func c19PayloadZoo(r *prng.R, secret string) []c19Payload {
 		{"space", " " + good[1:], false},
 		{"0x", "0x" + good[2:], false},
 		{"foreign", c19MakePayload(secret+"x", r.Bytes(8), c19Far), false},
-		{"emptysecretmac", c19MakePayload("", r.Bytes(8), c19Far), secret == ""},
+		{"sibling", c19MakePayload(sib, r.Bytes(8), c19Far), c19SameKey(sib, secret)},
+		{"zeropadded", c19MakePayload(secret+"\x00", r.Bytes(8), c19Far), c19SameKey(secret+"\x00", secret)},
+		{"emptysecretmac", c19MakePayload("", r.Bytes(8), c19Far), c19SameKey("", secret)},
 		{"expired0", c19MakePayload(secret, r.Bytes(8), 0), false},
 		{"expired-1", c19MakePayload(secret, r.Bytes(8), -1), false},
 		{"expiredmin", c19MakePayload(secret, r.Bytes(8), -1<<63), false},
@@ -1154,16 +1325,21 @@ func c19PayloadZoo(r *prng.R, secret string) []c19Payload {
 
 func genC19Payload(c *Ctx) {
 	r := c.R
-	n := c.Scale(3, 20)
+	n := c.Scale(len(c19SecretLens), 30)
 	for k := 0; k < n; k++ {
 		secret := string(r.Bytes(r.Intn(24)))
-		if k == 0 {
-			secret = ""
+		if k < len(c19SecretLens) {
+			secret = string(r.Bytes(c19SecretLens[k]))
 		}
 		for _, p := range c19PayloadZoo(r, secret) {
 			for _, lt := range []int64{0, 300} {
 				in := sx.L(sx.Str(secret), sx.Z(lt), sx.Z(c19Now*1e9+500000000), sx.Str(p.text), c19HmacOracle(secret, p.text))
-				out := c.Emit("c19.payload", in, "zoo|"+p.name)
+				cls := "zoo|" + p.name
+				switch p.name {
+				case "good", "sibling", "zeropadded", "trunc64", "foreign":
+					cls += "|" + c19SecretClass(secret)
+				}
+				out := c.Emit("c19.payload", in, cls)
 				if out.K != sx.KB || out.Bool != p.ok {
 					c.Fail("c19.payload", in, "payload", "CheckPayload verdict differs from the construction: "+p.name)
 				}
@@ -1334,6 +1510,14 @@ func genC19Corpus(c *Ctx) {
 	forged := c19Forge(r, "foreign-stateinit", victim.id, att.si, att.priv, secret, "zoo", c19ExecErr)
 	c19EmitHist(c, "corpus|own-login-then-victim", secret, "zoo", false, []c19Call{login, forged})
 	c19EmitHist(c, "corpus|own-login-then-victim", secret, "zoo", true, []c19Call{login, forged})
+	// secrets longer than the HMAC block: payloads made under a secret sharing the first 64 bytes /
+	// under the 64-byte truncation must be rejected, the full secret's accepted
+	long := string(r.Bytes(100))
+	for _, o := range []string{long, long[:64], long[:64] + string(r.Bytes(36)), long[:99] + "\x00"} {
+		pl := c19MakePayload(o, r.Bytes(8), c19Far)
+		c.Emit("c19.payload", sx.L(sx.Str(long), sx.Z(0), sx.Z(c19Now*1e9+500000000), sx.Str(pl), c19HmacOracle(long, pl)), "corpus|long-secret")
+		c.Emit("c19.genpayload", sx.L(sx.Str(long), sx.Z(0), sx.Str(o)), "corpus|long-secret")
+	}
 }
 
 // ---------------------------------------------------------------- histories on one Server
@@ -1485,7 +1669,7 @@ func genC19Hist(c *Ctx) {
 	siVers := []wallet.Version{wallet.V1R3, wallet.V2R2, wallet.V3R1, wallet.V3R2, wallet.V4R1, wallet.V4R2, wallet.V5Beta, wallet.V5R1}
 	n := c.Scale(6, 40)
 	for k := 0; k < n; k++ {
-		secret := string(r.Bytes(1 + r.Intn(16)))
+		secret := c19Secret(r)
 		domain := c19Domain(r)
 		conc := k%3 == 2
 		ver := siVers[r.Intn(len(siVers))]
